@@ -54,6 +54,11 @@ def main():
                 shutil.copy(demo, os.path.join(wt, "examples", "seed_demo.rs")); cmd = "cargo run --offline --example seed_demo 2>&1 | tail -25; exit ${PIPESTATUS[0]}"
             if os.path.exists(inject):
                 rc, out = sh("git apply %s" % inject, cwd=wt)
+                if rc != 0:
+                    # try the other order: inject first, then the seeded change
+                    sh("git checkout -- src may_queue/src", cwd=wt)
+                    rc1, out1 = sh("git apply %s && git apply %s" % (inject, patch), cwd=wt)
+                    rc = rc1
                 res["inject_applies"] = rc == 0
             def run_demo():
                 rc, out = sh("bash -c '%s'" % cmd.replace("'", "'\\''"), cwd=wt, env=env, timeout=900)
@@ -64,8 +69,10 @@ def main():
                 return ok, out[-1500:]
             ok_with, out_with = run_demo()
             res["demo_with_patch_passes"] = ok_with; res["demo_with_patch_tail"] = out_with[-600:]
-            rc, out = sh("git apply -R %s" % patch, cwd=wt)
-            assert rc == 0, out
+            sh("git checkout -- src may_queue/src", cwd=wt)
+            if os.path.exists(inject):
+                rc, out = sh("git apply %s" % inject, cwd=wt)
+                assert rc == 0, out
             ok_wo, out_wo = run_demo()
             res["demo_without_patch_passes"] = ok_wo; res["demo_without_patch_tail"] = out_wo[-400:]
             res["demo_ok"] = (not ok_with) and ok_wo
